@@ -40,9 +40,12 @@ def gen_strings(ctx):
     # class based
     frag = [b"a", b"/", b"+", b"#", "é".encode(), "€".encode(), "😀".encode(), "퟿".encode("utf-8", "surrogatepass"),
             b"\xed\xa0\x80", b"\xed\xbf\xbf", b"\xc0\x80", b"\xe0\x80\x80", b"\xf0\x80\x80\x80", b"\xf4\x90\x80\x80",
-            b"\xf4\x8f\xbf\xbf", b"\xef\xbf\xbf", b"\x00", b"\x01", b"\x7f", b"\xc2\x80", b"\xe2\x82", b"\xf0\x9f\x98", b"\xff", b"\x80"]
+            b"\xf4\x8f\xbf\xbf", b"\xef\xbf\xbf", b"\xef\xbf\xbd", b"\xef\xbf\xbe", b"\xef\xbf", b"\xbd", b"\x00", b"\x01", b"\x7f", b"\xc2\x80", b"\xe2\x82", b"\xf0\x9f\x98", b"\xff", b"\x80"]
     for _ in range(300 if ctx.quick() else 3000):
         out.append(b"".join(r.choice(frag) for _ in range(r.randrange(1, 8))))
+    # the replacement character itself is a valid code point (a decoder that signals errors with it must not refuse it)
+    for t in (b"\xef\xbf\xbd", b"id-\xef\xbf\xbd", b"\xef\xbf\xbd/\xef\xbf\xbd", b"a\xef\xbf\xbdb", b"\xef\xbf\xbd\xef\xbf", b"\xef\xbf\xbd\xbd"):
+        out.append(t)
     # boundary lengths, valid and invalid content
     for n in [127, 128, 65535, 65536]:
         out.append(b"a" * n)
